@@ -116,6 +116,12 @@ func (p *RunnableProcessor) Process(ctx context.Context, records []opencdc.Recor
 		if err != nil {
 			outRecs = append(outRecs, sdk.ErrorRecord{Error: err})
 		}
+		if short {
+			// a condition error belongs to a record behind the results the
+			// plugin did return; appended to a short output it would sit in
+			// the slot of an earlier record. It recurs when the rest is retried.
+			outRecs = outRecs[:nResults]
+		}
 
 		// Add passthrough records back into the resultset and keep the
 		// original order of the records.
@@ -131,9 +137,7 @@ func (p *RunnableProcessor) Process(ctx context.Context, records []opencdc.Recor
 			// aligned prefix - every record up to the first matching
 			// record without a result - so that result i still belongs to
 			// record i; the rest is retried by the caller.
-			// (a condition error appended above belongs to a record behind the
-			// prefix and will recur on the retry, so it is left out)
-			results := outRecs[:nResults]
+			results := outRecs
 			tmp := make([]sdk.ProcessedRecord, 0, len(results)+len(passthroughRecordIndexes))
 			next, pass := 0, 0
 			for i := range records {
